@@ -70,6 +70,9 @@ structure Cfg where
   /-- `dataReceivedRECORDS` on the buffer (C06's subject): `none` = it raised, `some rest` = the
       unconsumed rest of the buffer.  Arbitrary in all theorems. -/
   recLayer : Bytes → Option Bytes
+  /-- the buffer `dataReceivedRECORDS` leaves behind when it raises (the record it choked on has
+      already been sliced off).  Arbitrary in all theorems. -/
+  recRest : Bytes → Bytes
 
 /-- `_check_and_remove`: `none` = `BadHandshake`; `(false, _)` = keep waiting -/
 def checkAndRemove (buf expected : Bytes) : Option (Bool × Bytes) :=
@@ -154,7 +157,7 @@ def runArm (cfg : Cfg) (i : Nat) (a : Arm) (x : Ctx) : Flow :=
   | .records =>
     if x.c.state = .records then
       match cfg.recLayer x.c.buf with
-      | none => .raise .recordError x
+      | none => .raise .recordError { x with c := { x.c with buf := cfg.recRest x.c.buf } }
       | some rest => .ret { x with c := { x.c with buf := rest } }
     else .next x
   | .hungUp =>
@@ -580,12 +583,24 @@ def showWorld (w : World) : String :=
   s!"W={match w.winner with | some i => toString i | none => "-"} R={showRes w.result} L={showListener w} P={w.fPending.length} T={(activeTimers w).length} | {" ".intercalate cs}"
 
 def drvInit : World :=
-  initWorld { isSender := true, sendThis := [], expectThis := [], relayHs := [], recLayer := fun b => some b }
+  initWorld { isSender := true, sendThis := [], expectThis := [], relayHs := [], recLayer := fun b => some b, recRest := fun b => b }
     false 0 []
 
-/-- in the driver the record layer is never exercised beyond an incomplete length prefix: the
-    harness sends at most three bytes after `go` -/
-def drvRecLayer (b : Bytes) : Option Bytes := if b.length < 4 then some b else none
+/-- The record-layer boundary of `dataReceivedRECORDS`, as far as C07 needs it: fewer than four
+    bytes, or a 4-byte big-endian length prefix whose record is not complete yet, just *wait* (the
+    buffer is kept); a COMPLETE record is handed to `_decrypt_record`.  In the harness no peer ever
+    holds the record keys, so a complete record never authenticates (empty record: `ValueError`,
+    wrong nonce: `BadNonce`, otherwise the SecretBox rejects it) — the call raises.  What happens to
+    authentic records is C06's subject; every C07 theorem holds for an arbitrary `recLayer`. -/
+def drvRecLayer (b : Bytes) : Option Bytes :=
+  if b.length < 4 then some b
+  else
+    let len := ((b.take 4).foldl (fun acc x => acc * 256 + x) 0)
+    if b.length < 4 + len then some b else none
+
+/-- `encrypted, self.buf = self.buf[4:4 + length], self.buf[4 + length:]` precedes the raise -/
+def drvRecRest (b : Bytes) : Bytes :=
+  b.drop (4 + ((b.take 4).foldl (fun acc x => acc * 256 + x) 0))
 
 def withRaised (p : World × Option Err) : World × String :=
   match p.2 with
@@ -599,7 +614,7 @@ def drvStep (w : World) (line : String) : World × String :=
     match nd.toNat?, fromHex? s, fromHex? e, fromHex? y,
           (if rel == "-" then some [] else natList? (rel.splitOn ",")) with
     | some nd, some s, some e, some y, some rel =>
-      (initWorld { isSender := role == "S", sendThis := s, expectThis := e, relayHs := y, recLayer := drvRecLayer }
+      (initWorld { isSender := role == "S", sendThis := s, expectThis := e, relayHs := y, recLayer := drvRecLayer, recRest := drvRecRest }
         (l == "1") nd rel, "ok")
     | _, _, _, _, _ => (w, "bad-op")
   | ["inbound"] => match evInbound w with | some p => withRaised p | none => (w, "skip")
